@@ -617,8 +617,19 @@ pub enum Subsystem {
 }
 
 impl Subsystem {
-    fn from_frame(mut r: Frame) -> Option<Subsystem> {
-        r.get("changed").map(|raw| match &*raw {
+    /// All subsystems named by the `changed` fields of an `idle` reply, in order.
+    fn from_frame(mut r: Frame) -> Vec<Subsystem> {
+        let mut changed = Vec::new();
+
+        while let Some(raw) = r.get("changed") {
+            changed.push(Self::from_name(raw));
+        }
+
+        changed
+    }
+
+    fn from_name(raw: String) -> Subsystem {
+        match &*raw {
             "database" => Subsystem::Database,
             "message" => Subsystem::Message,
             "mixer" => Subsystem::Mixer,
@@ -634,7 +645,7 @@ impl Subsystem {
             "neighbor" => Subsystem::Neighbor,
             "mount" => Subsystem::Mount,
             _ => Subsystem::Other(raw.into()),
-        })
+        }
     }
 
     /// Returns the raw protocol name used for this subsystem.
